@@ -362,7 +362,8 @@ func init() {
 		o.peCallArg(fn("readSections", "pe_hdr_padding_len", "(size_of_hdr sectbl_end : Z)", "Z", rsLeaves), "io.CopyN", 0, 2)
 		alLeaves := map[string]string{"addr": "addr", "align": "align", "n": "n"}
 		o.peAssign(fn("align32", "pe_align_rem", "(addr align : Z)", "Z", alLeaves), "n", 0)
-		o.peCond(fn("align32", "pe_align_needed", "(n : Z)", "bool", alLeaves), "n", 0)
+		o.peCond(fn("align32", "pe_align_zero", "(align : Z)", "bool", alLeaves), "align == 0", 0)
+		o.peCond(fn("align32", "pe_align_needed", "(n : Z)", "bool", alLeaves), "n != 0", 0)
 		o.hasStmt(d, "", "align32", "addr += align - n", "pe_align_adds")
 		// ---- DigestPE main loop
 		dgLeaves := map[string]string{"len(sections)": "nsec", "sections[0].PointerToRawData": "ptr0", "hvals.sizeOfHdr": "size_of_hdr",
